@@ -98,11 +98,15 @@ package check
 //@   ensures result != nil
 //@   ensures[C02] depth-exhausted: restDepth <= 0 ==> result == checkgroup.UnknownMemberFunc
 
+// astRelationFor asks the namespace configuration of this very request: the engine keeps no copy
+// of relation definitions (a reload must take effect, C11/C19), so the function has no state to write
 //@ func (*Engine).astRelationFor
-//@   trusted
-//@   pure
-//@   requires wfe(e) && r != nil
-//@   ensures result0 != nil && result0.SubjectSetRewrite != nil ==> wfrw(result0.SubjectSetRewrite)
+//@   props C11
+//@   modifies nothing
+//@   requires wfe(e) && r != nil && ctx != nil
+// ASSUMED: the rewrite stored in a relation definition is well-formed (it was produced by the OPL
+// parser or by the legacy config decoder; T9)
+//@ fieldinv ast.Relation.SubjectSetRewrite: val != nil ==> wfrw(val)
 
 //@ spec hassetexpand(relation *ast.Relation) bool = exists k in 0..len(relation.Types) :: relation.Types[k].Relation != ""
 //@ func containsSubjectSetExpand
